@@ -309,7 +309,8 @@ Lemma depth_le_count_any wc : forall l lo hi, @wp wc lo hi l ->
 Proof.
   induction 1 as [lo hi H | lo hi st r Hp Hlo Hr IH | lo hi p c a body r Hlo Hne Hb IHb Hr IHr
                  | lo hi p c eb body jp je ebody r Hlo Hne Hne' Hb IHb Hj He IHe Hr IHr
-                 | lo hi done ps pj c pe body r Hlo Hpj Hc Hb IHb Hr IHr].
+                 | lo hi done ps pj c pe body r Hlo Hpj Hc Hb IHb Hx Hr IHr
+                 | lo hi conv xp xt r Hlo Hr IHr].
   - split; reflexivity.
   - destruct IH as [I1 I2]. unfold stmts_count in *. cbn [flats flat_i trees tree_i app depths depth_i fold_right]. rewrite Nat.max_0_l. split; lia.
   - destruct IHb as [B1 B2]. destruct IHr as [R1 R2]. rewrite depths_cons, depth_if. cbn [flats trees]. rewrite flat_if, tree_if.
@@ -320,6 +321,8 @@ Proof.
     rewrite (count_split (flats body)), (count_split (flats ebody)). split; lia.
   - destruct IHb as [B1 B2]. destruct IHr as [R1 R2]. rewrite depths_cons, depth_while. cbn [flats trees]. rewrite flat_while, tree_while.
     unfold stmts_count, loop_stmt, exit_if in *. cbn [app fold_right stmt_count]. destruct done; cbn [fold_right stmt_count]; split; lia.
+  - destruct IHr as [R1 R2]. rewrite depths_cons. unfold stmts_count in *. cbn [flats flat_i trees tree_i app depth_i fold_right]. rewrite Nat.max_0_l.
+    destruct conv; cbn [stmt_count]; split; lia.
 Qed.
 
 (* ---- a whole handler with counting loops ---- *)
@@ -353,10 +356,12 @@ Proof.
   assert (Hwp : @wp any_cond off (pexit + 1) (items en props off p ++ [IPlain exit_st])).
   { apply (wp_app off pexit); [exact Hwp0|].
     apply wp_plain; [reflexivity | cbn [pos_of exit_st]; lia | apply wp_nil; cbn [pos_of exit_st]; lia]. }
+  assert (Hxd : exits_done (items en props off p ++ [IPlain exit_st]) = true)
+    by (rewrite exits_done_app, (proj2 (items_no_exit en props p off 0)); reflexivity).
   unfold detect.
   destruct (depth_le_count_any any_cond _ _ _ Hwp) as [H1 H2].
   pose proof (condition_detect_nest (S (S (stmts_count (flats (items en props off p) ++ [exit_st])))) None
-                (items en props off p ++ [IPlain exit_st]) off (pexit + 1) [] Hwp I (Forall_nil _) (Forall_nil _)) as Ecd.
+                (items en props off p ++ [IPlain exit_st]) off (pexit + 1) [] Hwp Hxd I (Forall_nil _) (Forall_nil _)) as Ecd.
   rewrite flats_app, trees_app in Ecd. cbn [flats flat_i trees tree_i app] in Ecd. rewrite ?app_nil_r in Ecd.
   rewrite flats_app in H1. cbn [flats flat_i app] in H1. rewrite ?app_nil_r in H1.
   rewrite Ecd by lia. cbn [bind].
